@@ -176,4 +176,12 @@ META = {
           "P and mutations: whenever the parser accepts a generated, truncated, extended or mutated fragment, the bytes present must be exactly what its headers imply according to the hand-written size table (a truncation or invalid range that is accepted is a violation) and iteration must yield the declared objects."),
     note="Only the direction 'accepted => exactly as implied' is judged on hostile input; where the library is stricter or more lenient than the reference on qualifier/object combinations this is counted, not flagged. Free-format (g70) inner structure and attribute values are compared at header level only.",
  ),
+ "C02": dict(
+    engine="vh",
+    design_ref="5.2",
+    technique="runtime monitor over real executions: production TCP stack on loopback with a fault-injecting byte proxy, multi-threaded scheduling, ledger updated atomically with the database, offline checker for convergence / provenance / no-loss; thorough tier repeats the workload at higher volume",
+    text=("Exploration of real executions through the public API: TCP master client <-> byte proxy (re-chunking, pauses, cuts at random offsets) <-> TCP outstation server, multi-threaded runtime, two updater threads and master commands. Oracles over the recorded history: (i) within 40 s after the stimulus stops the last record the handler received for every point equals the database's current value/flags/time, "
+          "(ii) every record ever received equals some value that very point held (no fabrication, no cross-wiring between points or types, no resurrection of a value the point never had), (iii) every event that update2 did not report as discarded by overflow was delivered to the handler as an event at least once."),
+    note="Real-time executions are not replayable bit for bit; the replay file carries the scenario parameters and the observed history. Sanitizer builds of this workload are described in DESIGN.md section 6.",
+ ),
 }
